@@ -199,7 +199,7 @@ def _compute_abcd_post(self, obs, fcst, interval, result, f_interval=None):
         npairs = int(np.sum((np.isnan(o) == 0) & (np.isnan(f) == 0)))
         a, b, c, d = [float(np.ma.filled(v, 0)) if v is not np.ma.masked else 0.0 for v in result]
         if int(round(a + b + c + d)) != npairs:
-            _viol("C06", "abcd-conservation", "a+b+c+d = %g but %d pairs have both values (interval %s / %s)"
+            _viol(_abcd_prop, "abcd-conservation", "a+b+c+d = %g but %d pairs have both values (interval %s / %s)"
                   % (a + b + c + d, npairs, interval, f_interval))
         fi = f_interval if f_interval is not None else interval
         ea = eb = ec = ed = 0
@@ -217,7 +217,7 @@ def _compute_abcd_post(self, obs, fcst, interval, result, f_interval=None):
             else:
                 ed += 1
         if (ea, eb, ec, ed) != (int(round(a)), int(round(b)), int(round(c)), int(round(d))):
-            _viol("C06", "abcd-counts", "contingency counts %s but pairs give %s (interval %s / %s)"
+            _viol(_abcd_prop, "abcd-counts", "contingency counts %s but pairs give %s (interval %s / %s)"
                   % ((a, b, c, d), (ea, eb, ec, ed), interval, fi))
     except Exception as ex:
         _count("contract:error")
@@ -238,6 +238,20 @@ def _wrap(owner, name, cond):
     _attached[key] = orig
     setattr(owner, name, wrapped)
     return True
+
+
+_abcd_prop = "C06"
+
+
+def attach_abcd(ctx, prop):
+    """Only the contingency-table conservation contract (a pair with a missing value is in no cell), reported under prop."""
+    import verif.metric
+    global _abcd_prop
+    set_ctx(ctx)
+    if not enabled():
+        return
+    _abcd_prop = prop
+    _wrap(verif.metric.Contingency, "_compute_abcd", _compute_abcd_post)
 
 
 def attach_events(ctx):
